@@ -88,7 +88,7 @@ def run(tier):
     gen, gres = cvtcases.generate()
     cfgs, acc = cvtcases.configs(exe)
     native = [c for c in cfgs if c[0] in ("native", "native-nocones")] + [("native-nopre", ["cvt:pre:all=0"]), ("native-noeq", ["cvt:pre:eqresult=0", "cvt:pre:eqbinary=0"])]
-    n = 2400 if tier == "thorough" else 320
+    n = 2400 if tier == "thorough" else 640      # about as many as there are (operator, use) strata
     cases = cvtcases.sample(gen, (native, acc), n, seed())
     # every model with an SOS set (few, and the only place where the SOS part of the check is exercised)
     for g_ in gen:
@@ -111,6 +111,14 @@ def run(tier):
         good = [q for q in pts if not q["viol"]]
         bad = [q for q in pts if q["viol"]]
         rnd.shuffle(good); rnd.shuffle(bad)
+        # the extreme points of the first variable first (evaluators are most often wrong at the ends: beyond the
+        # last breakpoint of a piecewise-linear term, at a domain end, ...)
+        for lst in (good, bad):
+            if len(lst) > 2:
+                hi = max(range(len(lst)), key=lambda i_: lst[i_]["p"][0])
+                lst.insert(0, lst.pop(hi))
+                lo = min(range(1, len(lst)), key=lambda i_: lst[i_]["p"][0])
+                lst.insert(1, lst.pop(lo))
         Kc = 4 * K if byid[cid]["gen"]["kind"] == "sos" else K
         for q in good[:Kc // 2] + bad[:Kc - min(len(good), Kc // 2)]:
             name, mode, st, chkinfeas, fail = VARIANTS[rnd.randrange(len(VARIANTS))]
